@@ -265,7 +265,9 @@ class World:
         return ("new", rng.randrange(len(targets)))
 
     def gen(self, allow=("null", "alias", "new", "foreign"), **kw):
-        return X.Gen(self.ns, self.rng, refchoice=lambda tx, b: self.refchoice(tx, b, allow), **kw)
+        kw.setdefault("capacity_p", getattr(self, "capacity_p", 0.15))
+        return X.Gen(self.ns, self.rng, refchoice=lambda tx, b: self.refchoice(tx, b, allow),
+                     lookup=lambda b, at: self.shadow.get((b, at)), **kw)
 
     # ------------------------------------------------------------------ shadow maintenance (generation only)
     def to_shadow(self, tx, inp, x, b, rootkey, path):
@@ -460,7 +462,7 @@ class World:
             frm = sk
             inp, py = [], self.fetch(sk, rng.choice(["ctor", "view"]))
         else:
-            inp, py = self.gen(allow, np_forms=np_forms).value(etx, b, like=cur if etx["k"] not in ("ref", "uref") else None)
+            inp, py = self.gen(allow, np_forms=np_forms).value(etx, b, like=cur)
         exc = ""
         try:
             parent = self.walk(self.fetch(key, route), acc)
@@ -605,12 +607,14 @@ class World:
                 if not c:
                     continue
                 acc, last, etx, cur = rng.choice(c)
-                slot = getattr(cur, "slot", X.natural_slot(len(cur)))
-                if slot is None:
+                cap = getattr(cur, "cap", X.natural_cap(len(cur)))      # bytes available for text + NUL in the box
+                if cap is None:
                     continue                                # capacity of this box is not known to the harness
-                cap = slot * 8                              # bytes available for text + NUL in the box
-                text = rng.choice(["x", "é", "ab"]) * (cap + rng.choice([0, 1, 8, 20]))
-                text = text[: max(cap, 1) + rng.choice([0, 3, 9])] if len(text.encode()) > cap + 40 else text
+                unit = rng.choice(["x", "é", "ab"])
+                nb = cap + rng.choice([0, 0, 1, 2, 5, 8, 20])       # text bytes: from "one too many" upwards
+                text = (unit * (nb // len(unit.encode()) + 1))
+                while len(text.encode()) > nb:
+                    text = text[:-1]
                 if len(text.encode()) + 1 <= cap:
                     continue
                 detail = f"{key} {acc}{last} text of {len(text.encode())} bytes into a box of {cap}"
@@ -849,8 +853,13 @@ def _size_of(tx, v):
     k = tx["k"]
     if k == "sc":
         return tx["w"]
+    if v is None and k in ("struct", "arr"):        # static type: the size does not depend on the value
+        slot0 = lambda n: (n + 7) // 8 * 8
+        if k == "struct":
+            return sum(slot0(_size_of(f, None)) for f in tx["f"])
+        return slot0(int(np.prod(tx["sh"])) * _size_of(tx["it"], None))
     if k == "str":
-        return 8 + 8 * (getattr(v, "slot", None) or X.natural_slot(len(v)))
+        return 8 + (getattr(v, "cap", None) or X.natural_cap(len(v)))
     if k == "ref":
         return 8
     if k == "uref":
@@ -868,7 +877,7 @@ def _size_of(tx, v):
     hdr = 8 + 8 * ndyn + (8 * len(tx["sh"]) if ndyn and len(tx["sh"]) > 1 else 0)
     if X.is_static(tx["it"]):
         return slot(hdr + n * _size_of(tx["it"], None))
-    return slot(hdr + 8 * n + sum(_size_of(tx["it"], w) for w in v["it"]))
+    return slot(hdr + 8 * n + sum(slot(_size_of(tx["it"], w)) for w in v["it"]))
 
 
 def _ref_ats(tx, v):
@@ -885,7 +894,7 @@ def _ref_ats(tx, v):
 def _unknown_cap(tx, v):
     k = tx["k"]
     if k == "str":
-        return getattr(v, "slot", 0) is None
+        return getattr(v, "cap", 0) is None
     if k == "struct":
         return any(_unknown_cap(f, w) for f, w in zip(tx["f"], v))
     if k == "arr":
